@@ -143,3 +143,111 @@ Proof.
       rewrite (H7 Hl) in *. rewrite H3, Hdig in Hcs. unfold zlen in *. lia.
     + rewrite Hcs2, Eb, Hdig. reflexivity.
 Qed.
+
+(* ---------- a conforming registry: every well-formed upload succeeds ---------- *)
+Definition accepting (sc : list sact) : bool := forallb (fun a => match a with SAccept | SReloc => true | _ => false end) sc.
+
+Definition J (c : cst) : Prop :=
+  accepting (script c) = true /\ chunkStart c = zlen (sdata c) /\ bufStart c + zlen (buf c) = chunkStart c /\
+  sdata c = digested c /\ retry c = 0%nat /\ (0 < bcap c)%nat /\ (final c = true -> rest c = []).
+
+Lemma zlen_app' a b : zlen (a ++ b) = zlen a + zlen b.
+Proof. unfold zlen. rewrite app_length. lia. Qed.
+
+Lemma accepting_tl sc : accepting sc = true -> accepting (tl sc) = true.
+Proof. destruct sc as [|a sc]; cbn; [auto|]. intro H. apply andb_prop in H. tauto. Qed.
+
+Lemma read_ahead_stop : forall k c, ((chunkStart c >=? bufStart c + zlen (buf c)) && negb (final c)) = false -> read_ahead k c = c.
+Proof. intros [|k] c H; cbn [read_ahead]; [reflexivity|now rewrite H]. Qed.
+
+(* one iteration from a state in which everything sent so far is stored and more may be read *)
+Lemma iterate_J c : J c -> final c = false ->
+  exists c', iterate c = (c', Running) /\ J c' /\ digested c' ++ rest c' = digested c ++ rest c /\
+             ((rest c <> [] -> (length (rest c') < length (rest c))%nat) /\ (rest c = [] -> final c' = true /\ rest c' = [])).
+Proof.
+  destruct c as [rs dg bs bf cap cs csz fin rt sd sc lg]. unfold J. cbn [script chunkStart sdata bufStart buf digested retry bcap final rest].
+  intros (Ha & Hcs & Hbs & Hsd & Hrt & Hcap & Hfin) Hf. subst fin rt sd.
+  unfold iterate. cbn [rest].
+  (* the read-ahead reads one buffer and stops *)
+  set (c0 := mkC rs dg bs bf cap cs csz false 0 dg sc lg).
+  assert (E0 : read_ahead (S (length rs)) c0 = read_full c0).
+  { cbn [read_ahead]. unfold c0 at 1 2 3 4. cbn [chunkStart bufStart buf final].
+    replace (cs >=? bs + zlen bf) with true by (symmetry; apply Z.geb_le; lia). cbn [andb negb].
+    apply read_ahead_stop. unfold read_full, c0. cbn [chunkStart bufStart buf final bcap rest].
+    set (n := Nat.min cap (length rs)).
+    assert (Hl : zlen (firstn n rs) = Z.of_nat n) by (unfold zlen; rewrite firstn_length; subst n; f_equal; lia).
+    rewrite Hl. destruct (Nat.ltb_spec n cap) as [Hlt|Hge]; cbn [negb]; [apply andb_false_r|].
+    rewrite andb_true_r, Z.geb_leb. apply Z.leb_gt. assert (0 < n)%nat by (subst n; destruct rs; cbn in *; try lia; lia). lia. }
+  rewrite E0. unfold read_full, c0. cbn [chunkStart bufStart buf final bcap rest digested retry sdata script log].
+  set (n := Nat.min cap (length rs)). set (got := firstn n rs).
+  assert (Hl : zlen got = Z.of_nat n) by (unfold zlen, got; rewrite firstn_length; subst n; f_equal; lia).
+  unfold reslice. cbn [chunkStart bufStart buf]. replace (cs >? bs + zlen bf) with false by (rewrite Z.gtb_ltb; symmetry; apply Z.ltb_ge; lia). cbn [andb].
+  cbn [chunkSize chunkStart bufStart].
+  destruct (Nat.eq_dec n 0) as [Hn0|Hn0].
+  - (* nothing left: the short read marks the end *)
+    assert (Hrs : rs = []) by (subst n; destruct rs; [reflexivity|cbn in Hn0; lia]).
+    rewrite Hn0. cbn [Z.of_nat Z.gtb Z.compare andb]. eexists. split; [reflexivity|]. subst rs. cbn [firstn skipn length Nat.min] in *.
+    assert (Hcap' : (0 <? cap)%nat = true) by (apply Nat.ltb_lt; lia).
+    unfold J. cbn [script chunkStart sdata bufStart buf digested retry bcap final rest]. subst n got. cbn [Nat.min firstn] in *.
+    replace (Nat.min cap 0) with 0%nat by lia. cbn [firstn skipn]. rewrite Hcap'. rewrite !app_nil_r.
+    change (zlen []) with 0. repeat split; auto; try lia; intro H; congruence.
+  - assert (Hgt : Z.of_nat n >? 0 = true) by (apply Z.gtb_lt; lia). rewrite Hgt. cbn [andb].
+    replace (cs =? bs + zlen bf) with true by (symmetry; apply Z.eqb_eq; lia). cbn [negb].
+    unfold patch. cbn [buf chunkStart sdata log script rest digested bufStart bcap chunkSize final retry].
+    replace (cs =? zlen dg) with true by (symmetry; apply Z.eqb_eq; lia). cbn [negb].
+    assert (Hnle : (n <= length rs)%nat) by (subst n; lia).
+    assert (Hrsne : rs <> []) by (intro E; subst rs; subst n; cbn in Hn0; rewrite Nat.min_0_r in Hn0; lia).
+    assert (Hsk : (length (skipn n rs) < length rs)%nat) by (rewrite skipn_length; lia).
+    assert (Hfs : got ++ skipn n rs = rs) by (unfold got; apply firstn_skipn).
+    assert (Hlast : (if (n <? cap)%nat then true else false) = true -> skipn n rs = []).
+    { destruct (Nat.ltb_spec n cap) as [Hlt|Hge]; [|discriminate]. intros _. assert (n = length rs) by (subst n; lia). rewrite H. apply skipn_all. }
+    destruct sc as [|[| |k|] sc']; cbn in Ha; try discriminate.
+    all: eexists; split; [reflexivity|]; unfold J; cbn [script chunkStart sdata bufStart buf digested retry bcap final rest tl].
+    all: split; [repeat split; auto; try (rewrite zlen_app'; lia)|].
+    all: split; [rewrite <- app_assoc, Hfs; reflexivity|split; [intros _; exact Hsk|intro E; contradiction]].
+Qed.
+
+Lemma continue_final c : J c -> final c = true -> continue c = false.
+Proof. intros (_ & _ & Hb & _) Hf. unfold continue. rewrite Hf. cbn. apply Z.ltb_ge. lia. Qed.
+Lemma continue_more c : final c = false -> continue c = true.
+Proof. intro Hf. unfold continue. now rewrite Hf. Qed.
+
+Lemma loop_J : forall n c, J c -> (length (rest c) <= n)%nat ->
+  exists c', loop (n + 2) c = (c', Done) /\ J c' /\ digested c' = digested c ++ rest c /\ rest c' = [].
+Proof.
+  induction n as [|n IH]; intros c HJ Hn.
+  - (* nothing left to read *)
+    assert (Hr : rest c = []) by (destruct (rest c); [reflexivity|cbn in Hn; lia]).
+    destruct (final c) eqn:Ef.
+    + exists c. cbn [Nat.add loop]. rewrite (continue_final c HJ Ef). rewrite Hr, app_nil_r. auto.
+    + destruct (iterate_J c HJ Ef) as (c1 & Hi & HJ1 & Hd & _ & Hlast). destruct (Hlast Hr) as [Hf1 Hr1].
+      exists c1. cbn [Nat.add loop]. rewrite (continue_more c Ef), Hi. rewrite (continue_final c1 HJ1 Hf1).
+      rewrite Hr1, app_nil_r in Hd. auto.
+  - destruct (final c) eqn:Ef.
+    + exists c. cbn [Nat.add loop]. rewrite (continue_final c HJ Ef). destruct HJ as (H1 & H2 & H3 & H4 & H5 & H6 & H7).
+      rewrite (H7 Ef), app_nil_r. unfold J. auto 10.
+    + destruct (iterate_J c HJ Ef) as (c1 & Hi & HJ1 & Hd & Hless & Hlast).
+      change (S n + 2)%nat with (S (n + 2)). cbn [loop]. rewrite (continue_more c Ef), Hi.
+      destruct (rest c) as [|x r] eqn:Er.
+      * destruct (Hlast eq_refl) as [Hf1 Hr1]. exists c1. replace (n + 2)%nat with (S (n + 1)) by lia. cbn [loop].
+        rewrite (continue_final c1 HJ1 Hf1). rewrite Hr1, !app_nil_r in Hd. rewrite ?app_nil_r. split; [reflexivity|]. split; [exact HJ1|]. split; [exact Hd|exact Hr1].
+      * assert (Hl1 : (length (rest c1) <= n)%nat) by (specialize (Hless ltac:(discriminate)); cbn in *; lia).
+        destruct (IH c1 HJ1 Hl1) as (c' & Hloop & HJ' & Hd' & Hr'). exists c'. rewrite Hloop. split; [reflexivity|]. split; [exact HJ'|]. split; [now rewrite Hd', Hd|exact Hr'].
+Qed.
+
+Lemma init_J stream cap sc : (0 < cap)%nat -> accepting sc = true -> J (init stream cap [] sc).
+Proof. intros Hc Ha. unfold J, init. cbn. repeat split; auto; discriminate. Qed.
+
+Theorem conforming_succeeds stream cap sc declared dsize : (0 < cap)%nat -> accepting sc = true ->
+  (declared = None \/ declared = Some stream) -> (dsize = 0 \/ dsize = zlen stream) ->
+  exists lg, upload (length stream + 2) stream cap [] sc declared dsize = (Done, Some stream, lg).
+Proof.
+  intros Hc Ha Hd Hs. destruct (loop_J (length stream) (init stream cap [] sc) (init_J stream cap sc Hc Ha)) as (c' & Hl & HJ & Hdg & Hr); [cbn; lia|].
+  unfold upload. rewrite Hl. cbn [digested rest init] in Hdg. cbn in Hdg.
+  destruct HJ as (_ & Hcs & _ & Hsd & _).
+  assert (Hfin : finish declared dsize c' = Done).
+  { unfold finish. rewrite Hdg. destruct Hd as [->| ->].
+    - destruct Hs as [->| ->]; cbn; [reflexivity|]. rewrite Hcs, Hsd, Hdg, Z.eqb_refl. now destruct (zlen stream =? 0).
+    - rewrite beq_refl. cbn. destruct Hs as [->| ->]; cbn; [reflexivity|]. rewrite Hcs, Hsd, Hdg, Z.eqb_refl. now destruct (zlen stream =? 0). }
+  rewrite Hfin, Hsd, beq_refl, Hdg. eauto.
+Qed.
